@@ -17,6 +17,7 @@ class _State:
         self.exc = None
         self.pre_ok = True
         self.clauses = []  # (name, ok, error)
+        self.stub_calls = {}
         self.only = None
 
 
@@ -164,13 +165,23 @@ def same(a, b):
     return a == b
 
 
+def _calls(fn):
+    if isinstance(fn, str):
+        return ST.stub_calls.get(fn, [])
+    return fn.calls
+
+
 def ghost_calls(fn):
-    return len(fn.results)
+    return len(_calls(fn))
 
 
 def ghost_result(fn, k):
-    return fn.results[k]
+    return _calls(fn)[k]['result']
+
+
+def ghost_kwarg(fn, k, name):
+    return _calls(fn)[k]['kwargs'][name]
 
 
 def ghost_arg(fn, k, i):
-    return fn.args[k][i]
+    return _calls(fn)[k]['args'][i]
